@@ -14,6 +14,7 @@
 //!
 //! Encodings: logid [term,node,index]; vote [term,node,committed]; entry {"id":logid,"p":["blank"]|["mem",n]|["cmd",<serde ClusterCommand>]};
 //! bound ["i",n]|["e",n]|["u"]. Membership id n = bitmask of voter node ids 1..=6 (0 = default/empty).
+mod cluster;
 use openraft::storage::RaftLogStorage;
 use openraft::storage::RaftStateMachine;
 use openraft::testing::{StoreBuilder, Suite};
@@ -90,16 +91,16 @@ fn bound(j: &J) -> Bound<u64> {
 }
 
 // ---------------------------------------------------------------- encoding
-fn j_logid(l: &LogId<NodeId>) -> J {
+pub(crate) fn j_logid(l: &LogId<NodeId>) -> J {
     json!([l.leader_id.term, l.leader_id.node_id, l.index])
 }
-fn j_ologid(l: &Option<LogId<NodeId>>) -> J {
+pub(crate) fn j_ologid(l: &Option<LogId<NodeId>>) -> J {
     l.as_ref().map(j_logid).unwrap_or(J::Null)
 }
-fn j_smem(m: &StoredMembership<NodeId, RaftNode>) -> J {
+pub(crate) fn j_smem(m: &StoredMembership<NodeId, RaftNode>) -> J {
     json!([j_ologid(m.log_id()), membership_id(m.membership())])
 }
-fn j_entry(e: &Entry<TypeConfig>) -> J {
+pub(crate) fn j_entry(e: &Entry<TypeConfig>) -> J {
     let p = match &e.payload {
         EntryPayload::Blank => json!(["blank"]),
         EntryPayload::Membership(m) => json!(["mem", membership_id(m)]),
@@ -112,7 +113,7 @@ fn j_entries(es: &[Entry<TypeConfig>]) -> J {
 }
 /// Field-by-field rendering of the replicated state (deliberately not through `Serialize`, so that the
 /// observation does not depend on the serde attributes the snapshot format depends on).
-fn j_state(s: &CoordinatorState) -> J {
+pub(crate) fn j_state(s: &CoordinatorState) -> J {
     let mut workers = serde_json::Map::new();
     for (k, w) in &s.workers {
         workers.insert(k.clone(), json!({"id": w.id, "address": w.address, "api_key": w.api_key, "status": w.status,
@@ -434,6 +435,17 @@ fn main() {
         "ops" => run_ops(&rt, req),
         "crash" => run_crash(&rt, req),
         "suite" => run_suite(req),
+        "cluster" => {
+            // own multi-threaded runtime: openraft spawns its core and replication tasks
+            let rt2 = tokio::runtime::Builder::new_multi_thread().worker_threads(4).enable_all().build().unwrap();
+            if req["store"].as_str().unwrap() == "mem" {
+                rt2.block_on(cluster::run(cluster::MkMem, req))
+            } else {
+                let dir = fresh_dir();
+                let _g = DirGuard(dir.clone());
+                rt2.block_on(cluster::run(cluster::MkRocks(dir), req))
+            }
+        }
         m => json!({"error": format!("bad mode {}", m)}),
     });
 }
